@@ -3,8 +3,7 @@ Stage B: (1) the real merge_properties on real property objects (all ordered pai
 default) vs Merge.merge, (2) the real _process_properties on random allOf lists vs Merge.collect; both evaluated inside Coq.
 Stage C: documents with allOf chains generated end to end; the composed class is inspected in a fresh subprocess (attributes,
 mandatory constructor arguments, annotations for both member orders, from_dict/to_dict round trip)."""
-import copy, itertools, json, math, os, subprocess, sys, tempfile, shutil
-from concurrent.futures import ThreadPoolExecutor
+import copy, json, math, os, subprocess, tempfile, shutil
 from pathlib import Path
 from lib.common import cstr, cbool, cZ, run_cases, coq_eval, PY
 from lib import impl
@@ -103,7 +102,6 @@ VARIANTS = [
     ("model-B", REF("B"), False, []),
     ("model-inline", {"type": "object", "properties": {"z": {"type": "string"}}}, False, []),
 ]
-KIND_OF_LABEL = lambda lab: lab.split("-")[0]
 
 
 def mk_variant(vi: int, required: bool, dflt_ix, descr=None, example=None):
@@ -261,12 +259,8 @@ class Enc:
                 "  isoparse_ok := fun s => existsb (str_eqb s) iso_tbl;\n"
                 "  uuid_ok := fun s => existsb (str_eqb s) uu_tbl |}.\n"
                 "Definition mres_eqb (a b : mres) : bool :=\n"
-                "  match a, b with MOk x, MOk y => mprop_eqb x y | MErr, MErr => true | MCrash, MCrash => true | _, _ => false end.\n"
-                "Definition sig_of (ps : list (str * mprop)) := map (fun np => (fst np, (mp_required (snd np), snd np))) ps.\n"
-                "Definition collect_eqb (a : option (list (str * mprop))) (b : option (list (str * mprop))) : bool :=\n"
-                "  match a, b with\n"
-                "  | Some x, Some y => list_eqb (fun u v => str_eqb (fst u) (fst v) && mprop_eqb (snd u) (snd v)) x y\n"
-                "  | None, None => true | _, _ => false end.\n")
+                "  match a, b with MOk x, MOk y => mprop_eqb x y | MErr, MErr => true | MCrash, MCrash => true | _, _ => false end.\n")
+
 
 
 def real_merge(p1, p2):
@@ -787,6 +781,14 @@ for job in inp["jobs"]:
             except Exception as e:
                 miss[n] = type(e).__name__
         r["missing"] = miss
+        rej = {}
+        for n, inst in job.get("reject", {}).items():
+            try:
+                cls.from_dict(inst)
+                rej[n] = "accepted"
+            except Exception as e:
+                rej[n] = type(e).__name__
+        r["reject"] = rej
     except Exception as e:
         r["fatal"] = traceback.format_exc()[-1500:]
     res.append(r)
@@ -817,13 +819,17 @@ def stage_c_worker(spec):
         jobs = []
         for cname in spec["composed"]:
             f = flatten(spec, cname, memo)
-            inst_full, inst_min, skip = {}, {}, False
+            inst_full, inst_min, skip, bad = {}, {}, False, {}
             for n, ds in f["decls"].items():
                 cur = fold_narrow([d for d, _ in ds])
                 if cur[0] != "ok":
                     skip = True
                     break
                 inst_full[n] = sample(cur[1], len(n))
+                if cur[1]["k"] in ("enum_s", "enum_i"):      # a value only the larger enum (or the base type) admits must be refused
+                    wider = [v for d, _ in ds if d["k"] == cur[1]["k"] for v in d["vals"] if v not in cur[1]["vals"]]
+                    if len(ds) > 1:
+                        bad[n] = wider[0] if wider else ("zzz" if cur[1]["k"] == "enum_s" else 99)
                 if n in f["required_spec"]:
                     inst_min[n] = sample(cur[1], 1)
             if skip:
@@ -831,7 +837,8 @@ def stage_c_worker(spec):
             missing = {n: {k: v for k, v in inst_full.items() if k != n} for n in f["required_spec"]}
             for i in (0, 1):
                 if cname in tabs[i]:
-                    jobs.append({"id": f"{cname}/{i}", "pkg": f"pk{i}", "cls": cname, "instances": [inst_full, inst_min], "missing": missing})
+                    jobs.append({"id": f"{cname}/{i}", "pkg": f"pk{i}", "cls": cname, "instances": [inst_full, inst_min], "missing": missing,
+                                 "reject": {n: {**inst_full, n: v} for n, v in bad.items()}})
         if jobs:
             script = root / "runner.py"
             script.write_text(SUBPROC)
@@ -1023,6 +1030,10 @@ def judge_doc(run, obs, guard_queries):
                 if not out.get("ok") or out.get("extra"):
                     run.violation("oracle", {"replay_input": case, "note": "instance valid against all members does not round-trip through the composed class (or lands in additional_properties)",
                                              "class": cname, "order": i, "instance": inst, "result": out})
+            for n, verdict in r.get("reject", {}).items():
+                if verdict == "accepted":
+                    run.violation("oracle", {"replay_input": case, "note": "a value outside the narrowest (smaller) enum is accepted by the composed class", "class": cname, "attr": n,
+                                             "instance": job["reject"][n]})
             for n, verdict in r["missing"].items():
                 opt = split_ann((a0, a1)[i].get(n, ("Union[Unset, ?]", True))[0])[0]
                 if verdict == "accepted" and not opt:
@@ -1042,7 +1053,7 @@ def run(run, tier, replay=None):
                 "the two declarations differ; distinct by hash of the case. (2) collect: random allOf lists (referenced leaf and composed parents, inline members, own properties, "
                 "required lists) through the real _process_properties. (3) end to end: exhaustive two-member documents over %d declaration shapes (ref/ref and inline/inline) and random "
                 "documents with chains and parents declared after children, each generated in both member orders and executed in a fresh interpreter; one case = one composed class; "
-                "non-trivial = some property is declared by more than one member." % (len(VARIANTS), 21))
+                "non-trivial = some property is declared by more than one member." % (len(VARIANTS), 18))
     run.assumptions += ["oracles of Merge.merge (float(), isoparse, UUID) are tabulated from the real functions over the strings of the run",
                         "union member identity is abstracted to equality classes of inner_properties, model identity to the class name",
                         "stage C spec (narrow / flatten in c15.py) covers str, int, number, bool, date, date-time, uuid, any, enums, lists, model refs"]
@@ -1061,7 +1072,7 @@ def run(run, tier, replay=None):
         terms.append(term)
         evs.append(ev)
         infos.append((c, info))
-        run.note_case({"merge": c, "impl": info["impl"]}, nontrivial=c["v1"] != c["v2"], kind="merge:" + info["impl"].split(":")[0] + (":" + KIND_OF_LABEL(VARIANTS[c["v1"]][0]) if tier == "never" else ""))
+        run.note_case({"merge": c, "impl": info["impl"]}, nontrivial=c["v1"] != c["v2"], kind="merge:" + info["impl"].split(":")[0])
         # direct oracle: required-or, member-order symmetry of the type
         q1 = mk_variant(c["v1"], bool(c["r1"]), c["d1"], c.get("ds1"), c.get("ex1"))
         q2 = mk_variant(c["v2"], bool(c["r2"]), c["d2"], c.get("ds2"), c.get("ex2"))
@@ -1133,8 +1144,6 @@ def run(run, tier, replay=None):
     # ---------------- stage C end to end
     if rp is None:
         specs = fixed_specs() + exhaustive_pair_specs()
-        if tier == "quick":
-            specs = specs[::3] if os.environ.get("C15_FAST") else specs
         specs += [rand_doc_spec(rng, tier) for _ in range(140 if tier == "quick" else 1500)]
         run.exhaustive = True
     else:
